@@ -1077,8 +1077,8 @@ __wrap_pthread_mutex_destroy(pthread_mutex_t *m)
 			if (!t->done && ((t->st == ST_MUTEX && t->wobj == s) ||
 			                    (t->st == ST_CV && t->wmtx == s)))
 				sim_violation(NULL, "mutex_destroy_waited",
-				    "mutex #%u destroyed while t%d waits",
-				    s->id, t->id);
+				    "mutex #%u destroyed by %s while %s waits for it",
+				    s->id, tl_self ? tl_self->name : "?", t->name);
 		}
 	memset(m, 0, sizeof(*m));
 	return 0;
@@ -1488,9 +1488,68 @@ sim_set_result_fd(int fd)
 	G.result_fd = fd;
 }
 
+extern "C" void __sanitizer_set_death_callback(void (*)(void));
+
+// A sanitizer report kills the run; emit what we know (recorded choices,
+// events) first so that the driver can shrink and replay it.
+static void
+on_sanitizer_death(void)
+{
+	static bool once;
+	if (once || !G.active || G.finishing)
+		return;
+	once        = true;
+	G.finishing = true;
+	std::string s = "{";
+	out_json_kv(s, "status", "sanitizer");
+	char b[256];
+	snprintf(b, sizeof(b),
+	    ",\"seed\":%llu,\"steps\":%llu,\"switches\":%llu,\"vtime_ns\":%llu,"
+	    "\"trace_hash\":\"%016llx\",\"hist_hash\":\"%016llx\",\"sig_hash\":\"%016llx\"",
+	    (unsigned long long) G.cfg.seed, (unsigned long long) G.steps,
+	    (unsigned long long) G.switches, (unsigned long long) (G.now - G.start_ns),
+	    (unsigned long long) G.trace_hash, (unsigned long long) G.hist_hash,
+	    (unsigned long long) G.sig_hash);
+	s += b;
+	static const char *nm[2] = { "work", "fault" };
+	static const int   st[2] = { SIM_RNG_WORK, SIM_RNG_FAULT };
+	for (int k = 0; k < 2; k++) {
+		s += ",\"";
+		s += nm[k];
+		s += "\":[";
+		if (CH[st[k]].rec)
+			for (size_t i = 0; i < CH[st[k]].rec->size(); i++) {
+				if (i)
+					s += ",";
+				s += std::to_string((*CH[st[k]].rec)[i]);
+			}
+		s += "]";
+	}
+	s += ",\"events\":[";
+	if (G.events) {
+		size_t n0 = G.events->size() > 300 ? G.events->size() - 300 : 0;
+		for (size_t i = n0; i < G.events->size(); i++) {
+			if (i > n0)
+				s += ",";
+			s += "\"";
+			json_escape(s, (*G.events)[i].c_str());
+			s += "\"";
+		}
+	}
+	s += "]}\n";
+	size_t off = 0;
+	while (off < s.size()) {
+		ssize_t n = write(G.result_fd, s.data() + off, s.size() - off);
+		if (n <= 0)
+			break;
+		off += n;
+	}
+}
+
 extern "C" void
 sim_begin(const sim_config *cfg)
 {
+	__sanitizer_set_death_callback(on_sanitizer_death);
 	int rfd = G.result_fd ? G.result_fd : 1;
 	memset(&G.thr, 0, sizeof(G.thr));
 	G.cfg       = *cfg;
